@@ -48,6 +48,22 @@ func (h *H) oneHistory(idx int) {
 	// a macro that defines hidden globals but takes no new name from the caller
 	add("(defmac bump [v] (let [s0 (gensym) s1 (gensym)] ^(begin (def ~s0 ~v) (def ~s1 ~v) (set total (+ total ~s0 ~s1)))))", "(def unusedbump 0)")
 	same("(def total 0)")
+	// macros whose template unquotes / splices GLOBALS (not parameters): the expansion must be
+	// computed again, with the globals' current values, at every call -- also for calls with
+	// textually identical arguments, at top level or inside a function compiled later
+	hg, hl := r.Intn(50), []int{r.Intn(9), r.Intn(9)}
+	hlSrc := func() string {
+		parts := []string{}
+		for _, x := range hl {
+			parts = append(parts, fmt.Sprint(x))
+		}
+		return strings.Join(parts, " ")
+	}
+	same(fmt.Sprintf("(def hg %d)", hg))
+	same(fmt.Sprintf("(def hl (list %s))", hlSrc()))
+	add("(defmac useg [a] ^(list ~a ~hg ~@hl))", "(def unuseduseg 0)")
+	add("(defmac usegv [a] ^[~hg ~a ~@hl ~hg])", "(def unusedusegv 0)")
+	useArgs := []string{"7", "(+ 1 2)", "total"}
 	// names interned up front, so that an expansion naming them interns nothing new
 	pre := []string{"getP0", "getP1", "getP2"}
 	for _, p := range pre {
@@ -71,7 +87,30 @@ func (h *H) oneHistory(idx int) {
 	}
 	nsteps := 6 + r.Intn(8)
 	for i := 0; i < nsteps; i++ {
-		switch r.Intn(7) {
+		switch r.Intn(11) {
+		case 7: // rebind a global that templates unquote
+			if r.Intn(2) == 0 {
+				hg = r.Intn(50)
+				same(fmt.Sprintf("(%s hg %d)", []string{"def", "set"}[r.Intn(2)], hg))
+			} else {
+				hl = nil
+				for j, m := 0, r.Intn(4); j < m; j++ {
+					hl = append(hl, r.Intn(9))
+				}
+				same(fmt.Sprintf("(def hl (list %s))", hlSrc()))
+			}
+		case 8, 9: // call with (often textually identical) arguments, at top level
+			a := useArgs[r.Intn(len(useArgs))]
+			if r.Intn(2) == 0 {
+				steps = append(steps, histStep{mac: "(useg " + a + ")", hand: fmt.Sprintf("(list %s %d %s)", a, hg, hlSrc()), observe: true})
+			} else {
+				steps = append(steps, histStep{mac: "(usegv " + a + ")", hand: fmt.Sprintf("[%d %s %s %d]", hg, a, hlSrc(), hg), observe: true})
+			}
+		case 10: // ... or inside a function compiled now and called now
+			a := useArgs[r.Intn(len(useArgs))]
+			f := newName("fu")
+			add(fmt.Sprintf("(defn %s [] (useg %s))", f, a), fmt.Sprintf("(defn %s [] (list %s %d %s))", f, a, hg, hlSrc()))
+			getters = append(getters, f)
 		case 0, 1, 2: // expand a k-gensym macro
 			k := 1 + r.Intn(maxK)
 			var g string
@@ -151,7 +190,7 @@ func (h *H) oneHistory(idx int) {
 	// drop the definitions of macros this history never expands
 	used := func(name string) bool {
 		for _, s := range steps {
-			if strings.HasPrefix(s.mac, "("+name+" ") {
+			if !strings.HasPrefix(s.mac, "(defmac ") && strings.Contains(s.mac, "("+name+" ") {
 				return true
 			}
 		}
